@@ -1,6 +1,6 @@
 """World: one description of harness-built memory, instantiated both symbolically (llsym State) and
 natively (ctypes buffers for replay / translator validation)."""
-import ctypes, struct, os, sys, json, signal, traceback, math, fractions
+import ctypes, struct, os, sys, json, signal, traceback, math, fractions, re
 import z3
 from . import llsym
 from .irparse import IntT, FpT, PtrT
@@ -125,10 +125,16 @@ class NativeWorld:
     """ctypes instantiation of a World under concrete values"""
     def __init__(self, world, values):
         self.world = world; self.bufs = {}; self.values = values
+        self.sizes = {}
         for o in world.objs:
-            raw = (ctypes.c_ubyte * (o.size + 2 * GUARD))()
-            ctypes.memset(raw, CANARY, o.size + 2 * GUARD)
-            if o.zero_default: ctypes.memset(ctypes.addressof(raw) + GUARD, 0, o.size)
+            size = o.size
+            if z3.is_expr(size):
+                size = int(values[str(size)]) if str(size) in values else tonum(z3.simplify(size))
+                if size > (1 << 26): raise ValueError('object %s too large to instantiate natively (%d bytes)' % (o.name, size))
+            self.sizes[o] = size
+            raw = (ctypes.c_ubyte * (size + 2 * GUARD))()
+            ctypes.memset(raw, CANARY, size + 2 * GUARD)
+            if o.zero_default: ctypes.memset(ctypes.addressof(raw) + GUARD, 0, size)
             self.bufs[o] = raw
         for o in world.objs:
             for off, (ty, val) in o.cells.items():
@@ -159,7 +165,7 @@ class NativeWorld:
         bad = []
         for o, raw in self.bufs.items():
             b = bytes(raw)
-            if any(x != CANARY for x in b[:GUARD]) or any(x != CANARY for x in b[GUARD + o.size:]): bad.append(o.name)
+            if any(x != CANARY for x in b[:GUARD]) or any(x != CANARY for x in b[GUARD + self.sizes[o]:]): bad.append(o.name)
         return bad
 
 
@@ -274,7 +280,7 @@ def native_seq(so, calls, world, values, outputs=(), timeout=60, pre=None):
             if ret:
                 for o in world.objs:
                     a = nw.addr(o)
-                    if a <= ret <= a + o.size: res['ret_obj'] = [o.name, ret - a]
+                    if a <= ret <= a + nw.sizes[o]: res["ret_obj"] = [o.name, ret - a]
         return res
     return run_child(child, timeout)
 
@@ -393,7 +399,9 @@ def plain_world(world, values):
                 nm = str(val); v = values[nm] if nm in values else tonum(z3.simplify(val))
             else: v = val
             cells.append([off, ty, v])
-        objs.append({'name': o.name, 'size': o.size, 'zero': o.zero_default, 'cells': cells})
+        size = o.size
+        if z3.is_expr(size): size = int(values[str(size)]) if str(size) in values else tonum(z3.simplify(size))
+        objs.append({'name': o.name, 'size': min(size, 1 << 26), 'zero': o.zero_default, 'cells': cells})
     return objs
 
 
@@ -410,7 +418,7 @@ def asan_seq(so_asan, calls, world, values, timeout=120):
         return out
     spec = {'so': so_asan, 'objs': plain_world(world, values), 'calls': [[f, conv(a), r] for f, a, r in calls]}
     fd, path = tempfile.mkstemp(suffix='.json'); os.write(fd, json.dumps(spec).encode()); os.close(fd)
-    env = dict(os.environ, LD_PRELOAD=ASAN_RT, ASAN_OPTIONS='detect_leaks=0:exitcode=77:abort_on_error=0:allocator_may_return_null=1', PYTHONMALLOC='malloc')
+    env = dict(os.environ, LD_PRELOAD=ASAN_RT, ASAN_OPTIONS='detect_leaks=0:exitcode=77:abort_on_error=0:allocator_may_return_null=1:detect_odr_violation=0', PYTHONMALLOC='malloc')
     try:
         p = subprocess.run([sys.executable, os.path.join(os.path.dirname(os.path.abspath(__file__)), 'asan_child.py'), path], env=env,
                            stdout=subprocess.PIPE, stderr=subprocess.PIPE, text=True, timeout=timeout)
@@ -418,9 +426,12 @@ def asan_seq(so_asan, calls, world, values, timeout=120):
         return ('timeout', None)
     finally:
         os.unlink(path)
-    if 'AddressSanitizer' in p.stderr:
-        m = [l for l in p.stderr.splitlines() if 'ERROR: AddressSanitizer' in l or l.strip().startswith(('READ of', 'WRITE of', '#0', '#1'))]
-        return ('asan', ' | '.join(m[:5])[:600])
+    if 'ERROR: AddressSanitizer' in p.stderr:
+        m = [l for l in p.stderr.splitlines() if 'ERROR: AddressSanitizer' in l or l.strip().startswith(('READ of', 'WRITE of', '#0', '#1', '#2'))]
+        kind = re.search(r'ERROR: AddressSanitizer: ([\w-]+)', p.stderr).group(1)
+        memkinds = ('heap-buffer-overflow', 'stack-buffer-overflow', 'global-buffer-overflow', 'heap-use-after-free', 'SEGV', 'stack-use-after-return', 'stack-use-after-scope',
+                    'dynamic-stack-buffer-overflow', 'negative-size-param', 'unknown-crash', 'double-free', 'attempting', 'memcpy-param-overlap', 'use-after-poison', 'container-overflow')
+        return ('asan' if kind in memkinds else 'asan-other', kind + ': ' + ' | '.join(m[:6])[:700])
     if p.returncode == 42: return ('error', p.stderr[-300:])
     if p.returncode == 43: return ('stub', p.stderr[-300:])
     if p.returncode < 0: return ('crash', -p.returncode)
